@@ -127,6 +127,11 @@ def limitBlocks (limit : Option Int) : Bool :=
   | none => false
   | some k => decide (k ≤ 0)
 
+/-- the decorator case without backtrace (`get_parent_only`): walk the callers upward and stop at the first
+one that is not hidden; if the `break` sat outside the visibility test only the immediate caller would be looked at -/
+def parentOnlyFrames (parents : List Frame) : List Frame :=
+  if Gen.parentWalkSkipsHidden then (visible parents).take 1 else visible (parents.take 1)
+
 def extractFrames (o : Opts) (isFirst fromDec : Bool) (tb parents : List Frame) : List Shown :=
   match tb with
   | [] => []
@@ -135,7 +140,7 @@ def extractFrames (o : Opts) (isFirst fromDec : Bool) (tb parents : List Frame) 
     let head := visible [t0]
     let parentOnly := fromDec && !o.backtrace
     let infos0 : List Shown :=
-      if parentOnly then unmarked ((visible parents).take 1 ++ head)
+      if parentOnly then unmarked (parentOnlyFrames parents ++ head)
       else if o.backtrace && isFirst then markLast ((visible parents).reverse ++ head)
       else unmarked head
     applyLimit o.limit (infos0 ++ unmarked (visible rest))
